@@ -71,9 +71,31 @@ theorem owner_reap (k : Kernel) (p q : Nat) :
 theorem owner_tick (k : Kernel) (n q : Nat) : (k.apply (.tick n)).owner q = k.owner q := rfl
 theorem owner_setBtime (k : Kernel) (b q : Nat) : (k.apply (.setBtime b)).owner q = k.owner q := rfl
 
+theorem owner_perm (k : Kernel) (p : Nat) (e : Option Errno) (q : Nat) : (k.apply (.perm p e)).owner q = k.owner q := by
+  cases e <;> rfl
+theorem owner_hide (k : Kernel) (p : Nat) (b : Bool) (q : Nat) : (k.apply (.hide p b)).owner q = k.owner q := by
+  cases b <;> rfl
+
+/-- permission / readability inputs move nothing but themselves -/
+theorem apply_perm_rest (k : Kernel) (p : Nat) (e : Option Errno) :
+    (k.apply (.perm p e)).procs = k.procs ∧ (k.apply (.perm p e)).clock = k.clock
+      ∧ (k.apply (.perm p e)).btime = k.btime ∧ (k.apply (.perm p e)).hidden = k.hidden := by
+  cases e <;> exact ⟨rfl, rfl, rfl, rfl⟩
+
+theorem apply_hide_rest (k : Kernel) (p : Nat) (b : Bool) :
+    (k.apply (.hide p b)).procs = k.procs ∧ (k.apply (.hide p b)).clock = k.clock
+      ∧ (k.apply (.hide p b)).btime = k.btime ∧ (k.apply (.hide p b)).denied = k.denied := by
+  cases b <;> exact ⟨rfl, rfl, rfl, rfl⟩
+
 theorem clock_mono (k : Kernel) (e : KEv) : k.clock ≤ (k.apply e).clock := by
-  cases e <;> simp only [Kernel.apply] <;> try omega
-  split <;> simp
+  cases e with
+  | spawn p => simp only [Kernel.apply]; split <;> simp
+  | exit p => exact Nat.le_refl _
+  | reap p => exact Nat.le_refl _
+  | tick n => simp only [Kernel.apply]; omega
+  | setBtime b => exact Nat.le_refl _
+  | perm p e => rw [(apply_perm_rest k p e).2.1]; exact Nat.le_refl _
+  | hide p b => rw [(apply_hide_rest k p b).2.1]; exact Nat.le_refl _
 
 /-- an owner is always stamped before "now" -/
 def Kernel.Stamped (k : Kernel) : Prop := ∀ x ∈ k.procs, x.start < k.clock
@@ -90,6 +112,8 @@ theorem dead_stays_dead (k : Kernel) (e : KEv) (pid g : Nat) (hg : g < k.clock)
   | reap p => rw [owner_reap]; split <;> simp [hd]
   | tick n => exact hd
   | setBtime b => exact hd
+  | perm p e => rw [owner_perm]; exact hd
+  | hide p b => rw [owner_hide]; exact hd
 
 /-! ### kernel invariant -/
 
@@ -97,10 +121,14 @@ structure KInv (k : Kernel) : Prop where
   uniq : (k.procs.map (·.pid)).Nodup
   stamped : ∀ x ∈ k.procs, x.start < k.clock
   btime : k.btime ≠ 0
+  nohide : k.hidden = []
 
-/-- events a history may contain: the published boot time is never 0 (1970-01-01) -/
+/-- events a history may contain: the published boot time is never 0 (1970-01-01) and — what psutil's
+    `_init` assumes about every platform but Windows — `/proc/pid/stat` can always be opened (no `hide p true`).
+    Permission changes (`perm`) are unrestricted. -/
 def KEv.OK : KEv → Prop
   | .setBtime b => b ≠ 0
+  | .hide _ on => on = false
   | _ => True
 
 theorem KInv.apply {k : Kernel} (h : KInv k) (e : KEv) (he : e.OK) : KInv (k.apply e) := by
@@ -110,7 +138,7 @@ theorem KInv.apply {k : Kernel} (h : KInv k) (e : KEv) (he : e.OK) : KInv (k.app
     | some x => rw [apply_spawn_busy hf]; exact h
     | none =>
       rw [apply_spawn_free hf]
-      refine ⟨?_, ?_, h.btime⟩
+      refine ⟨?_, ?_, h.btime, h.nohide⟩
       · simp only [List.map_cons, List.nodup_cons]
         refine ⟨?_, h.uniq⟩
         intro hm
@@ -122,7 +150,7 @@ theorem KInv.apply {k : Kernel} (h : KInv k) (e : KEv) (he : e.OK) : KInv (k.app
         · exact Nat.lt_succ_self _
         · exact Nat.lt_succ_of_lt (h.stamped x hx)
   | exit p =>
-    refine ⟨?_, ?_, h.btime⟩
+    refine ⟨?_, ?_, h.btime, h.nohide⟩
     · have : (k.apply (.exit p)).procs.map (·.pid) = k.procs.map (·.pid) := by
         simp only [Kernel.apply, List.map_map]
         apply List.map_congr_left
@@ -134,15 +162,24 @@ theorem KInv.apply {k : Kernel} (h : KInv k) (e : KEv) (he : e.OK) : KInv (k.app
       have := h.stamped y hy
       split <;> exact this
   | reap p =>
-    refine ⟨?_, ?_, h.btime⟩
+    refine ⟨?_, ?_, h.btime, h.nohide⟩
     · exact List.Nodup.sublist (List.Sublist.map _ List.filter_sublist) h.uniq
     · intro x hx
       exact h.stamped x (List.mem_filter.1 hx).1
   | tick n =>
-    refine ⟨h.uniq, ?_, h.btime⟩
+    refine ⟨h.uniq, ?_, h.btime, h.nohide⟩
     intro x hx
     exact Nat.lt_of_lt_of_le (h.stamped x hx) (Nat.le_add_right _ _)
-  | setBtime b => exact ⟨h.uniq, h.stamped, he⟩
+  | setBtime b => exact ⟨h.uniq, h.stamped, he, h.nohide⟩
+  | perm p e =>
+    obtain ⟨hp, hc, hb, hh⟩ := apply_perm_rest k p e
+    exact ⟨by rw [hp]; exact h.uniq, by rw [hp, hc]; exact h.stamped, by rw [hb]; exact h.btime, by rw [hh]; exact h.nohide⟩
+  | hide p b =>
+    obtain ⟨hp, hc, hb, _⟩ := apply_hide_rest k p b
+    refine ⟨by rw [hp]; exact h.uniq, by rw [hp, hc]; exact h.stamped, by rw [hb]; exact h.btime, ?_⟩
+    simp only [KEv.OK] at he
+    subst he
+    simp [Kernel.apply, h.nohide]
 
 theorem KInv.find_lt {k : Kernel} (h : KInv k) {pid : Nat} {x : Inst} (hf : k.find pid = some x) :
     x.start < k.clock := h.stamped x (List.mem_of_find?_eq_some hf)
